@@ -166,7 +166,8 @@ CHECKS = {
         cat="proof",
         text="Theorems (Props/C07.v, reals, every series / window / nodata placement): the generic model of gammastd returns, for each "
              "valid observation of a fittable pixel, ndtri(p0 + (1 - p0) * gammainc(alpha, x / beta)) with p0 the zero share of the valid "
-             "cells and (alpha, beta) the result of gammafit on the calibration slice; gammafit returns beta = mean / alpha and alpha = "
+             "cells and (alpha, beta) the result of gammafit on the calibration slice's cells other than nodata (whatever the sign of the nodata "
+             "value); gammafit returns beta = mean / alpha and alpha = "
              "the value Brent's iteration ends on for log a - digamma a = s > 0 on [0.6 a0, 1.4 a0]; brentq (the literal 100-step loop) "
              "keeps a sign change enclosed and on convergence returns a point within the tolerance of one; a continuous function has a "
              "root in every enclosure (IVT). The binary64 instance with recorded log / digamma / gammainc / ndtri values is compared "
